@@ -25,7 +25,7 @@ def sh(cmd, cwd=None, env=None, timeout=None, stdin=None, stdout=subprocess.PIPE
 
 
 # extractor name -> the Generated modules it writes
-GENERATED_BY = {"cache": ["CacheConst"], "fmt": ["Fmt"], "keycache": ["KeyCacheFacts"], "kms": ["Kms"], "metastore": ["Metastore"],
+GENERATED_BY = {"cache": ["CacheConst"], "sketch": ["Sketch"], "fmt": ["Fmt"], "keycache": ["KeyCacheFacts"], "kms": ["Kms"], "metastore": ["Metastore"],
                 "partition": ["Partition"], "policy": ["Policy"], "secmem": ["SecMem"], "server": ["Server"], "sesscache": ["SessCacheFacts"]}
 
 
